@@ -65,12 +65,20 @@ Buffer_init(BufferObject *self, PyObject *args, PyObject *kwargs)
         return -1;
 
     if (data != NULL) {
-        self->base = malloc(data_len);
-        self->end = self->base + data_len;
+        capacity = data_len;
+    } else if (capacity < 0) {
+        PyErr_SetString(PyExc_ValueError, "Buffer capacity cannot be negative");
+        return -1;
+    }
+
+    self->base = malloc(capacity);
+    if (self->base == NULL && capacity > 0) {
+        PyErr_NoMemory();
+        return -1;
+    }
+    self->end = self->base + capacity;
+    if (data != NULL) {
         memcpy(self->base, data, data_len);
-    } else {
-        self->base = malloc(capacity);
-        self->end = self->base + capacity;
     }
     self->pos = self->base;
     return 0;
